@@ -105,7 +105,10 @@ CHECKS['C09'] = dict(
          'batch_size 0..3 x batch_wait_time 0..2 x 1-2 competing workers and checks WellFormed, AtMostOnce, ExactlyOnceAtEnd, Timely '
          '(call no later than wait after the first element was taken), Immediate (wait 0), deadlock-freedom and termination; '
          'reachability goals guard against vacuity.  The real _start_batch/_start_single loops run under detsched with arrivals at '
-         'virtual times; what call() received and when is logged and every trace is validated by TLC with times compared exactly.',
+         'virtual times; what call() received and when is logged and every trace is validated by TLC with times compared exactly.  '
+         'Full batch buffers (capacity batch_size + Extra, slow calls): WaitsOnlyWhenFull and LockHolderCanMove; the as-found room '
+         'test (D26) and a lock-first collector are refuted; flood scenarios run under random / PCT schedules and under the schedule '
+         'of the model\'s D26 counterexample.',
     design_ref='DESIGN.md section 6 C09', note=TB + '; exact virtual time (no tolerance windows)')
 
 CHECKS['C02'] = dict(
@@ -172,7 +175,8 @@ CHECKS['C20'] = dict(
     text='TLC checks HandledPrefix, NoLoss, PipeBound and the liveness properties ChildExits / JoinReturns / LoggerStops for up to 5 '
          'records, size classes and pipe capacities 2-4 units.  Real children log 0-300 records of 50 B - 100 kB (up to ~5x the pipe, '
          'F_GETPIPE_SZ read at run time) with a fast or a 2 ms/record parent handler, ending by return / raise / sys.exit; what a '
-         'handler on the parent root logger received, join() and the exit code are recorded and validated by TLC.',
+         'handler on the parent root logger received, join() and the exit code are recorded and validated by TLC.  The parent\'s level '
+         'settings are per logger (the records\' own logger more / less verbose than root); a launching script in its own interpreter.',
     design_ref='DESIGN.md section 6 C20', note=PROCNOTE)
 
 CHECKS['C03'] = dict(
@@ -196,7 +200,8 @@ CHECKS['C19'] = dict(
     text='TLC enumerates all arrival schedules up to 4-5 items (gaps 0..3), batch_size 1..3, wait 0..2, default and custom end '
          'marker, in a deterministic "eager" mode (harness queue) and a racing mode (real queue).  ~24k exported behaviours are run '
          'through the real __iter__ with time.perf_counter patched to the virtual clock; yield times and batches are compared '
-         'exactly.  350 detsched traces with a producer thread (N <= 30) are validated by TLC.',
+         'exactly (frozen and ticking clock; the custom end marker that arrives is equal to, never identical with, the constructor\'s).  '
+         '350 detsched traces with a producer thread (N <= 30) are validated by TLC.',
     design_ref='DESIGN.md section 6 C19', note=TB + '; exact virtual time')
 CHECKS['C15'] = dict(
     technique='TLA+ spec RemoteExc (stack of nesting levels; Raise / Wrap / Hop / Forward / NestInEnsemble / HopEnsemble / BareHop; a '
@@ -218,7 +223,8 @@ CHECKS['C18'] = dict(
          'R <= 3-4; three design flags refuted, four trap states reachable.  Real client/server runs with handler completions '
          'released out of order, payloads empty / newline-rich / header-like / 3 MiB / nested / raising; events recorded at the '
          'linearization points (read_record/write_record wrappers, logging active dict) and validated by TLC; pipe transport with '
-         'messages beyond the 64 KiB buffer in both directions.',
+         'messages beyond the 64 KiB buffer in both directions; an exception out of the transport\'s own send/recv ends the trace with '
+         'an event no action explains.',
     design_ref='DESIGN.md section 6 C18', note='TLC; real asyncio loop, sockets and processes under the OS schedule; byte framing is '
     'exercised by the payload catalogue (thorough: hypothesis payloads), not modelled; asyncio runs a sender\'s continuation before '
     'dispatching that record\'s response (stated environment assumption LoopOrder)')
@@ -236,7 +242,8 @@ CHECKS['C13'] = dict(
          'Trap goals, simulated histories (depth 40) and the two as-found counterexamples (as probes the real server must not follow) '
          'are executed against a fresh real ServerProcess each; after every external action debug_info refcounts, usability of every '
          'live proxy, container keys and /dev/shm/<name> must equal the spec state.  Histories include re-wrapping an already hosted '
-         'object (managed() of the same object again) and client processes that drop everything and stay alive and idle.',
+         'object (managed() of the same object again), client processes that drop everything and stay alive and idle, and a client whose '
+         'handle table lives inside a second server process (every proxy it holds lives in a foreign server).',
     design_ref='DESIGN.md section 6 C13', note=MGRNOTE)
 CHECKS['C14'] = dict(
     technique='TLA+ spec ProxyCall (hosted list / dict / Namespace / Value / custom class as sequential objects, every generated '
@@ -247,7 +254,8 @@ CHECKS['C14'] = dict(
     text='Every call made through a proxy is compared with the spec result and with the same call made directly on a local shadow '
          'object (exact values, exception class and args, is_remote_exception, server traceback text, next call on the same proxy '
          'works); managed() results must alias the contained value.  Concurrent callers under the OS schedule are validated by a '
-         'trace spec that searches a linearization respecting per-caller and real-time order.',
+         'trace spec that searches a linearization respecting per-caller and real-time order.  Callers: two threads, a child process, '
+         'hosted code inside the server, hosted code inside a SECOND server process.',
     design_ref='DESIGN.md section 6 C14', note=MGRNOTE)
 
 ALL = ['C%02d' % i for i in range(1, 21)]
